@@ -739,6 +739,10 @@ func parseStringLiteral(literal string) (string, error) {
 			var size int
 			value, size = utf8.DecodeRuneInString(str)
 			str = str[size:] // \ + <character>
+			if value == '\u2028' || value == '\u2029' {
+				// LineContinuation (ES5 7.8.4)
+				continue
+			}
 		} else {
 			str = str[2:] // \<character>
 			switch chr {
